@@ -5,3 +5,4 @@ POSTCONDITION TraceAccepted
 CONSTANTS
  AsBuiltRoot = FALSE
  AsBuiltDep = FALSE
+ AsBuiltDepType = FALSE
